@@ -182,6 +182,10 @@ where
     unsafe fn span(eoi: &mut Self::Cache, range: Range<&Self::Cursor>) -> Self::Span {
         match range.start.0.clone().next() {
             Some((_, s)) => {
+                // Nothing was consumed: an empty span at the upcoming token
+                if range.start.1 == range.end.1 {
+                    return S::new(eoi.context(), s.start()..s.start());
+                }
                 let end = range.end.2.clone().unwrap_or_else(|| eoi.end());
                 S::new(eoi.context(), s.start()..end)
             }
